@@ -341,6 +341,10 @@ def r04_5(ctx):
         supported = [v for k, v in rows.items() if k[2] == "Some"]
         oks = bool(supported) and all(len(v[1]) == 1 and v[1][0][2][1] == ("const", 0) and mentions(v[1][0][2][2], lambda x: x[0] == "agg" and x[2] == "Decode") and len(v[2]) == 1 and mentions(v[2][0][2][1], lambda x: x[0] == "agg" and x[2] == "Encode") for v in supported)
         r.ob("gating:supported-encoding->decode-first-encode-last", oks, g.site, "decode stage inserted at index 0, encode stage pushed last")
+        # the codec stages wrap filters that exist: they are added only after the chain of built items was found
+        # non-empty (an empty chain means pass-through, byte for byte, whatever the encoding)
+        guarded = bool(supported) and all(k[0] == 0 for k in rows if k[2] == "Some")
+        r.ob("gating:codec-stages-only-around-built-filters", guarded, g.site, "decode / encode stages are added only when at least one filter was built (chain.is_empty() tested false): %s" % sorted((k for k in rows if k[2] == "Some"), key=str))
         r.ob("gating:in_error-starts-false", all(dict(p.end[1][3]).get("in_error") == ("const", False) for p in sg.paths() if p.end[0] == "ret" and p.end[1][0] == "agg"), g.site, "a new filter chain is not in error")
         # Action::create_filter_body: None iff the chain is empty
         h = F.fn("action::Action::create_filter_body")
@@ -367,7 +371,7 @@ def r04_5(ctx):
                 if e[0] == "call" and e[1] == "std::collections::HashSet::insert" and e[2][1][0] == "const":
                     names2.add(e[2][1][1])
         r.ob("gating:encoding-tables-agree", names == names2 == {"br", "gzip", "deflate"}, gef.site, "get_encoding_filters accepts %s; SupportedEncoding::new_hash_set lists %s" % (sorted(names), sorted(names2)))
-    ctx.run_rule("R04.5", "gating tables", body, floor=9)
+    ctx.run_rule("R04.5", "gating tables", body, floor=10)
 
 
 def r04_6(ctx):
